@@ -99,6 +99,10 @@ def specs():
                     s2["costs"] = {"v2": costs["v0"]}
                 out.append(s2)
         out.append({"vars": {"v0": [0, 1], "v1": [0, 1], "v2": [0, 1]}, "cons": [{"name": "c0", "scope": ["v0", "v1"], "table": B[2]}, {"name": "c1", "scope": ["v1", "v2"], "table": B[0]}], "mode": mode})
+        # neighbours with DISJOINT domains: a value meant for the neighbour is never a member of the own domain
+        for t in (B[2], B[4], B[0]):
+            out.append({"vars": {"v0": [0, 1], "v1": [10, 11]}, "cons": [{"name": "c0", "scope": ["v0", "v1"], "table": t}], "mode": mode})
+        out.append({"vars": {"v0": [0, 1], "v1": ["a", "b"], "v2": [7, 8]}, "cons": [{"name": "c0", "scope": ["v0", "v1"], "table": B[2]}, {"name": "c1", "scope": ["v1", "v2"], "table": B[4]}], "mode": mode})
     return out
 
 
@@ -157,7 +161,7 @@ def run(ctx):
             s = hard(spec) if algo in ("dba", "gdba") else spec
             if algo in ("dba",) and s["mode"] == "max":
                 continue
-            small = len(s["vars"]) == 2 and len(s["vars"]["v0"]) == 2
+            small = len(s["vars"]) == 2 and len(s["vars"]["v0"]) == 2 and len(s["vars"]["v1"]) == 2
             for schedule in (("all",) if small else ("first", "last", "alt")):
                 jobs.append((algo, params, s, schedule))
     ctx.rule = (
